@@ -34,14 +34,14 @@ PID = "C06"
 DRIVER = Path(__file__).resolve().parent / "c06_impl.py"
 TARGETS = ["Sim/Case.vo", "Sim/ReinitProofs.vo", "Sim/ReproProofs.vo", "Streams/Stream.vo", "Props/C06.vo"]
 KIND_OF_SID = ["tally", "persistent", "counter"]
-HIST_KINDS = ["never", "stepped", "bounded", "ended", "fault", "stop", "endrepl", "cleanup", "othermodel", "multi"]
+HIST_KINDS = ["never", "stepped", "bounded", "ended", "fault", "stop", "endrepl", "cleanup", "othermodel", "multi", "asap"]
 COMPONENTS = ["trace", "outs", "ntfs", "obs", "canc", "dlv", "draws"]
 
 
 # ----------------------------------------------------------------------------- running the implementation
 def n_stops(case):
     return sum(1 for m in case["models"] for body in m["prog"] + m.get("lst", []) for a in body
-               if a[0] == "cmd" and a[1][0] in ("stop", "init")) + len(case.get("stop_at") or [])
+               if a[0] == "cmd" and a[1][0] in ("stop", "init")) + len(case.get("stop_at") or []) + (1 if case.get("slow") else 0)
 
 
 def run_impl(cases, nproc=14, batch=None, env_extra=None):
@@ -106,7 +106,8 @@ def gen_model(rng, clock, *, stochastic, with_stats, fault=False, stop=False, in
         if rng.random() < 0.3:
             rng.shuffle(model["stats"])
     if stochastic:
-        model["streams"] = [["a", rng.randint(1, 10 ** 6)], ["b", rng.randint(1, 10 ** 6)]]
+        model["streams"] = [["a", rng.choice([0, rng.randint(1, 10 ** 6), rng.randint(1, 10 ** 6)])],
+                            ["b", rng.randint(1, 10 ** 6)]]
         model["stream_mode"] = rng.choice(["new", "setseed"])
         for body in prog:
             for i, a in enumerate(body):
@@ -150,6 +151,8 @@ def gen_case(rng: random.Random, i: int) -> dict:
     kind = HIST_KINDS[(i // len(S.CLOCKS)) % len(HIST_KINDS)]
     if kind == "stop" and i % 7 != 0:          # stop() from a handler costs 1 s wall each
         kind = "bounded"
+    if kind == "asap" and i % 3 != 0:          # slow subscribers cost ~1 s wall each
+        kind = "ended"
     stochastic = (i % 3 == 1)
     with_stats = (i % 5 != 0)
     strategy = "pause" if kind in ("fault", "stop") or rng.random() < 0.5 else rng.choice(["log", "warn"])
@@ -171,6 +174,10 @@ def gen_case(rng: random.Random, i: int) -> dict:
         cmds.append([rng.choice(["runupto", "runuptoincl"]), t])
         if rng.random() < 0.4:
             cmds.append(["step"])
+    elif kind == "asap":
+        # the run of the first replication winds down while a slow subscriber is still being notified of STOP (or of
+        # END_REPLICATION); the caller re-initialises as soon as is_starting_or_running() turns False
+        cmds.append(rng.choice([["start"], ["runuptoincl", init1[1] + u * rng.randint(1, 10)], ["start"]]))
     elif kind in ("ended", "fault", "stop"):
         cmds.append(["start"])
         if kind == "fault" and rng.random() < 0.3:
@@ -196,11 +203,15 @@ def gen_case(rng: random.Random, i: int) -> dict:
         # longer than the replication that ended: events left pending beyond its end must not leak
         init2 = ["init", init1[1], init1[2], init1[3] + u * rng.randint(4, 16), mi]
     j = len(cmds)
+    case = {"clock": clock, "strategy": strategy, "models": models, "cmds": cmds, "twin_from": j, "hist_kind": kind}
+    if kind == "asap":
+        init2 = init2 + ["asap"]
+        case["slow"] = {rng.choice(["stop", "stop", "endrepl"]): 0.3}
     cmds.append(init2)
     cmds += run_cmds_for(rng, clock, init2)
     if rng.random() < 0.5 and cmds[-1] != ["start"]:
         cmds.append(["start"])
-    return {"clock": clock, "strategy": strategy, "models": models, "cmds": cmds, "twin_from": j, "hist_kind": kind}
+    return case
 
 
 def malformed_cases(rng, n):
@@ -240,7 +251,7 @@ def is_det(case):
             for a in body:
                 if a[0] in ("obsd", "obsf", "fire", "sub", "unsub") or (a[0] == "sched" and a[1][0] == "reld"):
                     return False
-    return not case.get("stop_at")
+    return not case.get("stop_at") and not case.get("slow")
 
 
 def oracle(case, obs):
@@ -256,6 +267,9 @@ def oracle(case, obs):
         return ("driver-error", "twin: " + str(tw)[:400]), facts
     if obs["notes"] or tw["notes"]:
         return ("not-quiescent", "; ".join(obs["notes"] + tw["notes"])), facts
+    if obs.get("late_ntfs") or tw.get("late_ntfs"):
+        return ("old-run-thread-notifies-after-initialize", f"the run thread of the previous replication fired "
+                f"{(obs.get('late_ntfs') or tw.get('late_ntfs'))[:3]} after initialize() had returned"), facts
     j = case["twin_from"]
     init = case["cmds"][j]
     start, warm, end = init[1], init[2], init[3]
@@ -345,10 +359,13 @@ def oracle(case, obs):
             return ("statistics-map-not-rebuilt", f"output_statistics keys {[x['key'] for x in ra]}, construct_model builds {want}"), facts
         if not all(x["is_current_object"] for x in ra):
             return ("statistics-map-holds-old-object", "a key of output_statistics() maps to an object of an earlier replication"), facts
+    if obs.get("settled") != tw.get("settled"):
+        return ("reinit-run-differs-from-fresh-settled-state", f"state once every subscriber has returned: {obs.get('settled')} "
+                f"vs {tw.get('settled')} on the brand-new simulator"), facts
     # --- statistics of earlier replications are left alone
     final = {(x[0], x[1], x[2]): x for x in obs["final_stats"]}
     for jj, snap in enumerate(obs["pre_init"]):
-        if jj == 0:
+        if jj == 0 or case.get("slow"):      # (snapshot taken while the old run was still winding down)
             continue
         for x in snap:
             y = final.get((x[0], x[1], x[2]))
@@ -641,6 +658,8 @@ def y_repr(case, obs):
         return why
     if case.get("stop_at"):
         return "stop_at"
+    if obs.get("racy_snaps"):
+        return "snapshot taken while the run thread was winding down"
     if any(m.get("pre") for m in case["models"][1:]):
         return "pre-built events of a second model"
     if not isinstance(obs.get("reported"), (list, type(None))):
@@ -754,7 +773,8 @@ def shrink(case, pred, budget=60):
 
 RULE = ("generated (history, new replication) pairs on int / float / Duration clocks: history kinds never started, stepped k "
         "times, bounded run, ended, paused by a handler fault (WARN_AND_PAUSE), paused by stop() from a handler, "
-        "end_replication, cleanup, another model's replication in between, several replications in sequence; one or two "
+        "end_replication, cleanup, another model's replication in between, several replications in sequence, re-initialisation "
+        "at the instant is_starting_or_running() turns False while a slow subscriber is still being notified of STOP / END_REPLICATION; one or two "
         "model programs taking turns; models with / without SimCounter, SimTally, SimPersistent built in construct_model "
         "(also two statistics on one data stream) and with / without seeded MersenneTwister streams re-created or re-seeded in "
         "construct_model whose draws set delays and observed values; the new replication has its own start / warm-up / end "
